@@ -1078,7 +1078,7 @@ func (rr *NSEC3) parse(c *zlexer, o string) *ParseError {
 	if l.token == "" || l.err {
 		return &ParseError{err: "bad NSEC3 NextDomain", lex: l}
 	}
-	rr.HashLength = 20 // Fix for NSEC3 (sha1 160 bits)
+	rr.HashLength = uint8(base32HexNoPadEncoding.DecodedLen(len(l.token)))
 	rr.NextDomain = l.token
 
 	rr.TypeBitMap = make([]uint16, 0)
